@@ -469,6 +469,7 @@ fn sub_seed(ctx: &Ctx, sub: &Sub, shard: usize) -> u64 {
 
 fn run_one(ctx: &Ctx, sub: &Sub, input: &[u8], st: &mut Stats) -> R {
     st.evaluations += 1;
+    crate::model::set_ambient_generator_for(input);
     let r = match catch(|| (sub.f)(input, st)) {
         Ok(r) => r,
         Err((m, l)) => Err(Fail::new(
